@@ -56,7 +56,9 @@ def pick_config(ch: Chooser, spec: G.ModelSpec, full: bool = True):
         ns_map = ch.pick([None, {None: mns}, {"p": mns}], "cfg.ns_map")
         return dict(indent=indent, xml_declaration=decl, ignore_default_attributes=ida), ns_map
     ns_map = ch.pick([None, {None: mns}, {"p": mns}, {"u": "urn:unused"}, {"xsi": "http://www.w3.org/2001/XMLSchema-instance", "q": "urn:q"},
-                      {"": mns}, {None: mns, "x": mns}, {"p": "", "o": "urn:o"}], "cfg.ns_map")
+                      {"": mns}, {None: mns, "x": mns}, {"p": "", "o": "urn:o"},
+                      # prefixes of the shape the writer generates itself, bound to something else
+                      {"ns1": "urn:unused"}, {"ns0": "urn:unused", "ns2": "urn:other-unused"}], "cfg.ns_map")
     return dict(indent=indent, xml_declaration=decl, ignore_default_attributes=ida), ns_map
 
 
@@ -132,7 +134,7 @@ def unrepresentable(spec: G.ModelSpec, exprs, cfg, ns_map) -> str | None:
     if ns_map and (None in ns_map or "" in ns_map):
         if any(q in joined for q in NO_NS_QNAMES):
             return "a no-namespace QName value cannot be written while a user default namespace is in scope"
-        if "Derived(" in joined and spec.module_ns is None:
+        if ("Derived(" in joined or "Derived2(" in joined) and spec.module_ns is None:
             return "xsi:type naming a no-namespace type cannot be written while a user default namespace is in scope"
     if cfg["indent"] and any("w:mixed" in f.tags for f in spec.fields):
         return "indentation with mixed content (documented exception)"
@@ -163,7 +165,7 @@ def named_bucket(spec: G.ModelSpec, f, d: str, exc) -> str | None:
     if f is not None and f.cat == "attributes" and "keys" in body and "XMLSchema-instance}nil" in body and spec.meta_nillable:
         return "KF/attribute-map-absorbs-xsi-nil-of-nillable-class"
     seq_arr = [x for x in spec.fields if "sequence" in x.tags and (x.cat == "elements" or "tokens" in x.tags)]
-    if seq_arr and (f in seq_arr or (exc is not None and len(spec.fields) == 1)):
+    if seq_arr and (f in seq_arr or (exc is not None and all(x in seq_arr for x in spec.fields))):
         if exc is None or type(exc).__name__ in ("SerializerError", "ParserError"):
             return "KF/sequence-group-with-token-list-or-compound-items"
     return None
@@ -221,11 +223,13 @@ def run(tier: str, seed: int) -> int:
     t0 = time.time()
     th = tier == "thorough"
     maxf, dm, dv = (3, 3, 2) if th else (2, 3, 2)
-    vecs = G.enumerate_models(dm, maxf)
+    vecs = G.enumerate_models(dm, maxf, twins=True)
     tasks = []
     for v in vecs:
         # pass A: full product of the value alphabets under the default configuration
         tasks.append(("c01.rt", dict(vec=v, maxf=maxf, free_values=True), 0, ()))
+        if v[-1] == G.TWIN and not th:
+            continue  # pairs of equal fields: pass A only in the quick tier
         if th:
             # pass B: <= dv non-default answers among values and the full configuration alphabet together
             tasks.append(("c01.rt", dict(vec=v, maxf=maxf, free_values=False), dv, ()))
@@ -241,7 +245,7 @@ def run(tier: str, seed: int) -> int:
         rule=(f"binding models from the G-model grammar with <= {maxf} fields and <= {dm} non-default grammar answers (field category, type, arity, "
               "nillable, namespace, rename, tokens, wrapper, sequence, class Meta options, inheritance, frozen/tuples, name generators); for each model "
               f"the full product of the per-field value alphabets x <= {dv} non-default serializer-config answers (indent, declaration, "
-              "ignore_default_attributes, 5 user prefix maps) x {native,lxml} writer x {native,lxml} handler. Distinct non-trivial = distinct (model source, instance)."),
+              "ignore_default_attributes, 9 user prefix maps) x {native,lxml} writer x {native,lxml} handler. Distinct non-trivial = distinct (model source, instance)."),
         assumptions=["equality is structural with exact leaf types (True != 1), NaN-aware",
                      "models the documentation calls ambiguous (two wildcards, two Text fields, mixed wildcard with sibling elements) are excluded by construction",
                      "Text fields never hold '' (indistinguishable from no text in the infoset); token items are whitespace-free",
